@@ -370,6 +370,9 @@ class World:
     return qs[since:], len(qs)
 
 
+NOOP_CAPABLE = ("cto", "cond", "orig", "bind", "pasteb", "pastev", "pastend")
+
+
 def build_replica(mlog):
   w = World()
   for r in mlog:
@@ -476,6 +479,7 @@ def execute(trace, mode, classify=False, keep_log=False, focus=None,
   foreign = None
   junk = []
   mlog = []           # resolved mutators, in order
+  emlog = []          # ... without those that left the graph as it was
   mkinds = []
   edges = []          # logged (src, dst)
   adj = {}
@@ -516,17 +520,25 @@ def execute(trace, mode, classify=False, keep_log=False, focus=None,
       continue
     canon_seq.append((k, len(r)))
     if k in MUTATORS:
-      if classify:
+      maybe_noop = mode == "c08" and k in NOOP_CAPABLE
+      if classify or maybe_noop:
         snap_before = live.snapshot(effective=True)
       live.mutate(r)
+      changed = True
+      if classify or maybe_noop:
+        changed = live.snapshot(effective=True) != snap_before
       if classify:
-        if live.snapshot(effective=True) != snap_before:
+        if changed:
           windows = [[]]
         else:
           # a mutation that changed nothing may or may not have dropped the
           # solver (both are legitimate); remember both possible windows
           windows.append([])
       mlog.append(r)
+      if changed or k not in NOOP_CAPABLE:
+        emlog.append(r)     # (an empty new variable changes no answer but ids)
+      else:
+        bump(probes, "noop_mutation")
       mkinds.append(k)
       mut_positions.append(idx)
       stats["mut"] += 1
@@ -632,6 +644,25 @@ def execute(trace, mode, classify=False, keep_log=False, focus=None,
           violation = {"oracle": "fresh_vs_fresh", "class": "NONDET", "query": r,
                        "answers": [ref] + others, "op_index": idx,
                        "signature": {"class": "NONDET"}}
+      if violation is None and ref == ans and len(emlog) != len(mlog):
+        # "a freshly built copy of the graph in its current state": a copy
+        # built WITHOUT the calls that changed nothing (duplicate edge,
+        # condition re-assigned to what it was, origin added again) is the same
+        # graph, built in the same order; it must answer the same
+        rep2 = build_replica(emlog)
+        ref2 = rep2.query(r)
+        bump(probes, "state_replica_comparisons")
+        if ref2 != ans:
+          if rep2.snapshot(effective=True) != live.snapshot(effective=True):
+            raise kernel.HarnessError(
+                "state replica is not a structural copy of the live graph at op %d" % idx)
+          # twice, to keep heap-layout effects out of this class
+          if build_replica(emlog).query(r) == ref2 and build_replica(mlog).query(r) == ref:
+            violation = {"oracle": "state_replica", "class": "NOOP_STATE", "query": r,
+                         "live": ans, "fresh_without_noop_calls": ref2,
+                         "noop_calls": [m for m in mlog if m not in emlog][:5],
+                         "op_index": idx, "signature": {"class": "NOOP_STATE"}}
+        del rep2
       if violation is None and ref != ans:
         violation = {"oracle": "replica", "class": "DIVERGE", "query": r,
                      "live": ans, "fresh": ref, "op_index": idx}
@@ -640,7 +671,7 @@ def execute(trace, mode, classify=False, keep_log=False, focus=None,
               "replica is not a structural copy of the live graph at op %d" % idx)
       del rep
     if violation:
-      if classify and violation["class"] != "NONDET":
+      if classify and violation["class"] not in ("NONDET", "NOOP_STATE"):
         _classify(violation, live, mlog, mkinds, mut_positions,
                   windows, gens_after_query, edges, r, idx,
                   n_q_metrics if focus == idx else None, trace, sample_gens)
